@@ -149,6 +149,161 @@ func (lf *litFPFacts) kindSwitches(fd *ast.FuncDecl) []*ast.SwitchStmt {
 	return out
 }
 
+// kindTableLookup: `v, ok := table[<kind>]` where table is a package-level map literal keyed
+// by floating-point kinds with integer constants as values — the table form of a switch over
+// the kind whose clauses assign v. Returns the (kind → value) rows and the variable.
+type kindLookup struct {
+	pos  token.Pos
+	v    types.Object
+	rows map[string]int64
+}
+
+func (lf *litFPFacts) kindTableLookups(n ast.Node) []kindLookup {
+	var out []kindLookup
+	info := lf.info
+	p := lf.c.pkg(pkgCONS)
+	ast.Inspect(n, func(m ast.Node) bool {
+		as, ok := m.(*ast.AssignStmt)
+		if !ok || len(as.Rhs) != 1 || len(as.Lhs) < 1 {
+			return true
+		}
+		ix, ok := unparen(as.Rhs[0]).(*ast.IndexExpr)
+		if !ok {
+			return true
+		}
+		tid, ok := unparen(ix.X).(*ast.Ident)
+		if !ok {
+			return true
+		}
+		tv, ok := info.ObjectOf(tid).(*types.Var)
+		if !ok || tv.Pkg() == nil || tv.Parent() != tv.Pkg().Scope() {
+			return true
+		}
+		var init ast.Expr
+		for _, f := range p.Syntax {
+			for _, d := range f.Decls {
+				if gd, ok := d.(*ast.GenDecl); ok && gd.Tok == token.VAR {
+					for _, sp := range gd.Specs {
+						vs := sp.(*ast.ValueSpec)
+						for i, nm := range vs.Names {
+							if info.Defs[nm] == types.Object(tv) && i < len(vs.Values) {
+								init = vs.Values[i]
+							}
+						}
+					}
+				}
+			}
+		}
+		cl, ok := init.(*ast.CompositeLit)
+		if !ok {
+			return true
+		}
+		rows := map[string]int64{}
+		for _, el := range cl.Elts {
+			kv, ok := el.(*ast.KeyValueExpr)
+			if !ok || !strings.Contains(exprString(kv.Key), "FloatKind") {
+				return true
+			}
+			if v := info.Types[kv.Value]; v.Value != nil && v.Value.Kind() == constant.Int {
+				rows[exprString(kv.Key)], _ = constant.Int64Val(v.Value)
+			} else {
+				return true
+			}
+		}
+		if len(rows) == 0 {
+			return true
+		}
+		lid, ok := as.Lhs[0].(*ast.Ident)
+		if !ok {
+			return true
+		}
+		out = append(out, kindLookup{as.Pos(), info.ObjectOf(lid), rows})
+		return true
+	})
+	return out
+}
+
+// halfOf: which half of the digit string the word e is parsed from — "second" for a slice
+// expression with a low bound and no high bound, "first" for the reverse — following local
+// variables to their definitions and tuple results into the helper that produced them
+// (low, high, err := parseHexWords(hex, 16)).
+func (lf *litFPFacts) halfOf(fd *ast.FuncDecl, e ast.Expr, seen map[types.Object]bool, depth int) string {
+	info := lf.info
+	if depth > 6 {
+		return ""
+	}
+	res := ""
+	ast.Inspect(e, func(n ast.Node) bool {
+		switch x := n.(type) {
+		case *ast.SliceExpr:
+			switch {
+			case x.Low != nil && x.High == nil:
+				res = "second"
+			case x.Low == nil && x.High != nil:
+				res = "first"
+			}
+		case *ast.Ident:
+			obj := info.Uses[x]
+			if obj == nil || seen[obj] || res != "" {
+				return res == ""
+			}
+			seen[obj] = true
+			ast.Inspect(fd.Body, func(m ast.Node) bool {
+				as, ok := m.(*ast.AssignStmt)
+				if !ok || res != "" {
+					return res == ""
+				}
+				for i, l := range as.Lhs {
+					id, ok := l.(*ast.Ident)
+					if !ok || info.ObjectOf(id) != obj {
+						continue
+					}
+					switch {
+					case len(as.Rhs) == len(as.Lhs):
+						if r := lf.halfOf(fd, as.Rhs[i], seen, depth+1); r != "" {
+							res = r
+						}
+					case len(as.Rhs) == 1:
+						call, ok := unparen(as.Rhs[0]).(*ast.CallExpr)
+						if !ok {
+							continue
+						}
+						hfd := lf.c.funcDecl(calleeOf(info, call))
+						if hfd == nil || hfd.Body == nil || lf.c.declPkg[hfd] != lf.c.pkg(pkgCONS) {
+							// a library call (strconv.ParseUint(part, …)): the half is its argument's
+							for _, a := range call.Args {
+								if r := lf.halfOf(fd, a, seen, depth+1); r != "" && res == "" {
+									res = r
+								}
+							}
+							continue
+						}
+						// the i-th result of a helper of the package
+						ast.Inspect(hfd.Body, func(k ast.Node) bool {
+							if _, isLit := k.(*ast.FuncLit); isLit {
+								return false
+							}
+							ret, ok := k.(*ast.ReturnStmt)
+							if !ok || res != "" {
+								return res == ""
+							}
+							if i < len(ret.Results) {
+								if r := lf.halfOf(hfd, ret.Results[i], map[types.Object]bool{}, depth+1); r != "" {
+									res = r
+								}
+							}
+							return true
+						})
+					}
+				}
+				return true
+			})
+		}
+		return res == ""
+	})
+	return res
+}
+
 func ruleLITFP(c *Ctx) []Obligation {
 	var obs []Obligation
 	identFn := c.lookupFunc(pkgCONS, "Float.Ident")
@@ -399,6 +554,15 @@ func ruleLITFP(c *Ctx) []Obligation {
 					}
 				}
 			}
+			// table form: precision, ok := table[typ.Kind]
+			if _, isAssign := st.(*ast.AssignStmt); isAssign {
+				for _, lk := range lf.kindTableLookups(st) {
+					decimalKinds = map[string]bool{}
+					for k := range lk.rows {
+						decimalKinds[k] = true
+					}
+				}
+			}
 		}
 	}
 	od := Obligation{Key: "decimal spelling kinds", Pos: c.pos(ksw.Pos()), Verdict: OK}
@@ -477,38 +641,7 @@ func ruleLITFP(c *Ctx) []Obligation {
 	ow := Obligation{Key: "fp128 0xL word order: low 64 bits first", Pos: c.pos(ifd.Pos()), Verdict: UNDECIDED, Detail: "binary128.NewFromBits / Bits not found in the reader / printer"}
 	readerOK, printerOK := 0, 0 // 0 unknown, 1 ok, 2 wrong
 	for _, fd := range RF {
-		defs := collectDefs(info, fd.Body)
-		// second half: a slice expression with a low bound and no high bound; first half: the reverse
-		halfOf := func(e ast.Expr) string {
-			seen := map[types.Object]bool{}
-			var walk func(e ast.Expr, depth int) string
-			walk = func(e ast.Expr, depth int) string {
-				res := ""
-				ast.Inspect(e, func(n ast.Node) bool {
-					switch x := n.(type) {
-					case *ast.SliceExpr:
-						switch {
-						case x.Low != nil && x.High == nil:
-							res = "second"
-						case x.Low == nil && x.High != nil:
-							res = "first"
-						}
-					case *ast.Ident:
-						if obj := info.Uses[x]; obj != nil && !seen[obj] && depth < 4 && res == "" {
-							seen[obj] = true
-							for _, d := range defs[obj] {
-								if r := walk(d, depth+1); r != "" && res == "" {
-									res = r
-								}
-							}
-						}
-					}
-					return res == ""
-				})
-				return res
-			}
-			return walk(e, 0)
-		}
+		halfOf := func(e ast.Expr) string { return lf.halfOf(fd, e, map[types.Object]bool{}, 0) }
 		ast.Inspect(fd.Body, func(n ast.Node) bool {
 			call, ok := n.(*ast.CallExpr)
 			if !ok || len(call.Args) != 2 {
@@ -559,31 +692,65 @@ func ruleLITFP(c *Ctx) []Obligation {
 		if len(bitsVars) == 0 {
 			continue
 		}
+		// the order in which the two words are handed to the formatting code: the arguments of one
+		// Sprintf, or of successive calls of a builder (…word(low, 16).word(high, 16)), read in
+		// source order within one block
+		pm := lf.parents(fd)
+		type use struct {
+			pos  token.Pos
+			word string
+		}
+		groups := map[ast.Node][]use{}
 		ast.Inspect(fd.Body, func(n ast.Node) bool {
-			call, ok := n.(*ast.CallExpr)
+			id, ok := n.(*ast.Ident)
 			if !ok {
 				return true
 			}
-			var order []string
-			for _, a := range call.Args {
-				if id, ok := unparen(a).(*ast.Ident); ok {
-					if w, ok := bitsVars[info.ObjectOf(id)]; ok {
-						order = append(order, w)
+			w, ok := bitsVars[info.Uses[id]]
+			if !ok {
+				return true
+			}
+			isArg := false
+			var blk ast.Node
+			for q := pm[id]; q != nil && blk == nil; q = pm[q] {
+				switch x := q.(type) {
+				case *ast.CallExpr:
+					for _, a := range x.Args {
+						if a.Pos() <= id.Pos() && id.End() <= a.End() {
+							isArg = true
+						}
 					}
+				case *ast.BlockStmt, *ast.CaseClause:
+					blk = q
 				}
 			}
-			if len(order) == 2 {
-				if order[0] == "low" && order[1] == "high" {
-					if printerOK == 0 {
-						printerOK = 1
-					}
-				} else {
-					printerOK = 2
-					ow.Pos = c.pos(call.Pos())
-				}
+			if isArg && blk != nil {
+				groups[blk] = append(groups[blk], use{id.Pos(), w})
 			}
 			return true
 		})
+		for _, us := range groups {
+			sort.Slice(us, func(i, j int) bool { return us[i].pos < us[j].pos })
+			first := map[string]token.Pos{}
+			for _, u := range us {
+				if _, has := first[u.word]; !has {
+					first[u.word] = u.pos
+				}
+			}
+			lo, hasLo := first["low"]
+			hi, hasHi := first["high"]
+			if !hasLo || !hasHi {
+				continue
+			}
+			if lo < hi {
+				if printerOK == 0 {
+					printerOK = 1
+				}
+			} else {
+				printerOK = 2
+				ow.Pos = c.pos(hi)
+			}
+		}
 	}
 	switch {
 	case readerOK == 2 || printerOK == 2:
@@ -860,6 +1027,13 @@ func (lf *litFPFacts) precision(RF []*ast.FuncDecl, hexRegion ast.Node) []Obliga
 			}
 			return true
 		})
+	}
+	for _, fd := range RF {
+		for _, lk := range lf.kindTableLookups(fd.Body) {
+			for k, v := range lk.rows {
+				sites[k] = append(sites[k], site{lk.pos, v})
+			}
+		}
 	}
 	for _, kind := range sortedKeys(sites) {
 		ss := sites[kind]
